@@ -281,15 +281,10 @@ func (m *mon) checkPuts(r *rig, viaStack bool) {
 		if !r.w.valid(p.b) {
 			m.fail("stored-unverified-beacon", fmt.Sprintf("round %d reached the store but does not verify against the pinned key", p.b.Round))
 		}
-		if viaStack && p.b.Round != p.headPrev+1 {
-			cls := "sync-put-out-of-order"
-			if m.c.sk == skFollow {
-				cls = "follow-stack-put-out-of-order"
-				if !r.w.chained {
-					cls = "follow-stack-put-out-of-order-unchained"
-				}
-			}
-			m.fail(cls, fmt.Sprintf("round %d stored while the head was %d", p.b.Round, p.headPrev))
+		// (the hand-built callback(scheme(raw)) stack is no production stack any more: it only
+		// validates that branch of the model, the order of its writes is not a property of drand)
+		if viaStack && m.c.sk == skAppend && p.b.Round != p.headPrev+1 {
+			m.fail("sync-put-out-of-order", fmt.Sprintf("round %d stored while the head was %d", p.b.Round, p.headPrev))
 		}
 		if !viaStack && !r.w.chained && len(p.b.PreviousSig) > 0 {
 			m.extra["observation:resync-stores-peer-chosen-prev-on-unchained"]++
@@ -321,7 +316,7 @@ func tolerable(c *scase, specs []*peerSpec, calls []*call) (honestIdx int, stall
 			if e.kind == eStall {
 				stallBefore = true
 			}
-			if e.kind == ePkt && e.md != mdOther && c.sk == skFollow && !c.w.chained && c.w.valid(e.b) {
+			if e.kind == ePkt && e.md != mdOther && c.kind != "follow" && c.sk == skFollow && !c.w.chained && c.w.valid(e.b) {
 				misorderBefore = true // may store out of order: outside the premise of convergence
 			}
 		}
